@@ -41,6 +41,10 @@ TOpt == /\ e.op = "opt"
         /\ AddOpt(MkOpt(e.payload, e.ttl, e.options), e.pad, e.osize, e.tsize)
         /\ Outcome(st') /\ State(st') /\ Adv
 THdr == /\ e.op = "hdr" /\ WriteHeader /\ State(st') /\ Adv
+\* low-level add_tsig / add_multi_tsig: the TSIG record is added whole or refused whole (time and MAC are observed)
+TTsigLL == /\ e.op = "tsig"
+           /\ AddTsig(MkTsig(e.key, e.alg, e.t48, e.fudge, e.mac, e.origid, 0, <<>>))
+           /\ Outcome(st') /\ State(st') /\ Adv
 TWire == /\ e.op = "wire" /\ UNCHANGED st
          /\ Check(t, l, "WireBytes", e.wire = st.out)
          /\ Check(t, l, "IndependentDecode", WireIs(e.wire, st.id, st.flags, st.qs, st.xs))
@@ -120,6 +124,6 @@ TOc == /\ e.op = "oc" /\ UNCHANGED st
        /\ Adv
 
 TraceNext == /\ l <= Len(Ev(t))
-             /\ \/ TNew \/ TQ \/ TRr \/ TOpt \/ THdr \/ TWire \/ TMsg \/ TRc \/ TOc
+             /\ \/ TNew \/ TQ \/ TRr \/ TOpt \/ THdr \/ TWire \/ TMsg \/ TRc \/ TOc \/ TTsigLL
 Accepted == Accepting(t, l)
 =============================================================================
